@@ -241,7 +241,11 @@ func runC19(c *fw.Ctx, id string, rq c19Req) {
 	if rq.maxTTL < 1 || rq.maxTTL > 255 {
 		unrep = append(unrep, fmt.Sprintf("MaxTTL=%d", rq.maxTTL))
 	}
-	if proto != "udp" && proto != "tcp" && proto != "icmp" {
+	if lp := strings.ToLower(proto); lp == "udp" || lp == "tcp" || lp == "icmp" {
+		// a spelling variant of a known protocol (the package itself defines "UDP"/"TCP"/"ICMP" constants): it may be
+		// rejected or run as that protocol, it is not an unknown protocol
+		proto = lp
+	} else {
 		unrep = append(unrep, fmt.Sprintf("protocol=%q", proto))
 	}
 	if proto == "tcp" && method != "syn" && method != "sack" && method != "prefer_sack" && method != "syn_socket" {
